@@ -68,6 +68,15 @@ def main() -> None:
         with open(path) as fh:
             data = json.load(fh)
         case = data.get('case', data)
+        if 'shape' in case:
+            # a valid-unusual case is a recipe, not bytes: render it first
+            from props import c03
+
+            t, body = c03.build_unusual(case)
+            case = {'type': t, 'neg': case['neg'], 'hex': body.hex()}
+        if 'type' not in case:
+            print(f'{path}: not a bytes case')
+            continue
         msg_type, neg = int(case['type']), int(case['neg'])
         body = bytes.fromhex(case['hex'])[: target.msg_size(neg) - 19]
         want = signature_of(msg_type, neg, body)
